@@ -2223,3 +2223,222 @@ func RNoAlias(c *core.Ctx) {
 		c.Anchor("exported *Regexp methods returning slices or maps")
 	}
 }
+
+// ---------------------------------------------------------------------------
+// R-CIEXACT: an ignore-case search returns the LEFTMOST occurrence in any
+// case.  A case-sensitive search for the whole needle (strings.Index,
+// bytes.Index, the package's own IndexOf …) finds the leftmost occurrence in
+// ONE case, which may lie to the right of an occurrence in another case: used
+// as a fast path it moves the candidate the prefix filter hands to the
+// matcher ("ABC1 abc2" starts at 5).  Exact single-byte searches for both
+// cases of one letter (IndexByte twice, minimum taken) are the sound form.
+// ---------------------------------------------------------------------------
+
+var exactMultiSearch = map[string]bool{
+	"strings.Index": true, "strings.LastIndex": true, "strings.Contains": true, "strings.HasPrefix": true, "strings.HasSuffix": true, "strings.Cut": true,
+	"bytes.Index": true, "bytes.LastIndex": true, "bytes.Contains": true, "bytes.HasPrefix": true, "bytes.HasSuffix": true, "bytes.Equal": false,
+	"slices.Index": false,
+}
+
+func RCiExact(c *core.Ctx) {
+	c.Rule("R-CIEXACT", "no function whose name says IgnoreCase hands its needle (a string / slice parameter) to a case-sensitive multi-character search (strings.Index, bytes.Index, strings.HasPrefix, the helpers' own exact IndexOf …): the leftmost exact-case occurrence is not the leftmost occurrence in any case", 0)
+	p := c.P
+	n, examined := 0, 0
+	for _, pk := range p.ModulePkgs() {
+		info := pk.TypesInfo
+		for _, fd := range p.FuncDecls(pk) {
+			if fd.Body == nil || p.IsTestFile(fd.Pos()) || fd.Type.Params == nil {
+				continue
+			}
+			fnObj, _ := info.Defs[fd.Name].(*types.Func)
+			if fnObj == nil || !strings.Contains(core.BaseName(fnObj), "IgnoreCase") {
+				continue
+			}
+			examined++
+			name := core.DeclName(pk, fd)
+			params := map[types.Object]bool{}
+			for _, f := range fd.Type.Params.List {
+				for _, id := range f.Names {
+					o := info.ObjectOf(id)
+					switch t := o.Type().Underlying().(type) {
+					case *types.Slice:
+						params[o] = true
+					case *types.Basic:
+						if t.Info()&types.IsString != 0 {
+							params[o] = true
+						}
+					}
+				}
+			}
+			ast.Inspect(fd.Body, func(x ast.Node) bool {
+				call, ok := x.(*ast.CallExpr)
+				if !ok || len(call.Args) < 2 {
+					return true
+				}
+				fn := core.Callee(info, call)
+				if fn == nil {
+					return true
+				}
+				exact := exactMultiSearch[fn.FullName()]
+				// the module's own exact searches: an Index* helper that is not itself an IgnoreCase one and takes a slice needle
+				if fn.Pkg() != nil && strings.HasPrefix(fn.Pkg().Path(), core.Mod) && strings.HasPrefix(core.BaseName(fn), "Index") && !strings.Contains(core.BaseName(fn), "IgnoreCase") && !strings.Contains(core.BaseName(fn), "Any") {
+					if sig, ok := fn.Type().(*types.Signature); ok && sig.Params().Len() == 2 {
+						if _, isSl := sig.Params().At(1).Type().Underlying().(*types.Slice); isSl {
+							exact = true
+						}
+					}
+				}
+				if !exact {
+					return true
+				}
+				// both haystack and needle come from the parameters (possibly re-sliced)
+				fromParam := func(e ast.Expr) bool {
+					for {
+						switch y := ast.Unparen(e).(type) {
+						case *ast.SliceExpr:
+							e = y.X
+							continue
+						case *ast.Ident:
+							return params[info.ObjectOf(y)]
+						}
+						return false
+					}
+				}
+				if !fromParam(call.Args[len(call.Args)-1]) {
+					return true
+				}
+				n++
+				c.Visit(name)
+				c.Bad(fmt.Sprintf("%s / case-sensitive search for the whole needle #%d", name, n), call.Pos(), "%s looks for the needle in exactly the case it was given: an occurrence in another case further left is skipped, so the result is not the leftmost ignore-case occurrence", types.ExprString(call))
+				return true
+			})
+		}
+	}
+	c.Note("R-CIEXACT: %d IgnoreCase functions examined", examined)
+	if examined == 0 {
+		c.Anchor("functions named *IgnoreCase*")
+		return
+	}
+	if n == 0 {
+		c.OK("module / no ignore-case search falls back on a case-sensitive search for the whole needle", token.NoPos, "%d functions examined", examined)
+	}
+}
+
+// ---------------------------------------------------------------------------
+// R-FOLDPAIR: whether a case variant belongs into a class depends on the PAIR
+// (the character it is a variant of, and the variant): "no folding across the
+// ASCII boundary" is `(ch <= 0x7f) != (eq <= 0x7f)`.  A filter that looks at
+// the variant alone (`eq > MaxASCII → skip`) also drops É for é and П for п.
+// Wherever the variants returned by tryFindCaseEquivalences are walked, a
+// branch that decides about a variant mentions the original character too.
+// ---------------------------------------------------------------------------
+
+func RFoldPair(c *core.Ctx) {
+	c.Rule("R-FOLDPAIR", "in every loop over the result of tryFindCaseEquivalences(ch), a condition that mentions the variant also mentions ch (or there is no condition at all: every variant is added): a variant is never judged on its own", 1)
+	p := c.P
+	syn := p.Pkg("syntax")
+	info := syn.TypesInfo
+	tf := p.LookupFunc("syntax", "tryFindCaseEquivalences")
+	if tf == nil {
+		c.Anchor("syntax.tryFindCaseEquivalences")
+		return
+	}
+	n := 0
+	for _, fd := range p.FuncDecls(syn) {
+		if fd.Body == nil || p.IsTestFile(fd.Pos()) {
+			continue
+		}
+		name := core.DeclName(syn, fd)
+		// locals assigned from the call, with the argument they were computed for
+		src := map[types.Object]ast.Expr{}
+		ast.Inspect(fd.Body, func(x ast.Node) bool {
+			as, ok := x.(*ast.AssignStmt)
+			if !ok || len(as.Lhs) != len(as.Rhs) {
+				return true
+			}
+			for i, r := range as.Rhs {
+				if call, ok := ast.Unparen(r).(*ast.CallExpr); ok && core.IsCallTo(info, call, tf) && len(call.Args) == 1 {
+					if id, ok := as.Lhs[i].(*ast.Ident); ok {
+						src[info.ObjectOf(id)] = call.Args[0]
+					}
+				}
+			}
+			return true
+		})
+		ast.Inspect(fd.Body, func(x ast.Node) bool {
+			rs, ok := x.(*ast.RangeStmt)
+			if !ok || rs.Value == nil {
+				return true
+			}
+			var arg ast.Expr
+			switch y := ast.Unparen(rs.X).(type) {
+			case *ast.Ident:
+				arg = src[info.ObjectOf(y)]
+			case *ast.CallExpr:
+				if core.IsCallTo(info, y, tf) && len(y.Args) == 1 {
+					arg = y.Args[0]
+				}
+			}
+			vid, ok := rs.Value.(*ast.Ident)
+			if arg == nil || !ok {
+				return true
+			}
+			n++
+			c.Visit(name)
+			variant := info.ObjectOf(vid)
+			var origObjs []types.Object
+			ast.Inspect(arg, func(y ast.Node) bool {
+				if id, ok := y.(*ast.Ident); ok {
+					if o := info.ObjectOf(id); o != nil {
+						origObjs = append(origObjs, o)
+					}
+				}
+				return true
+			})
+			bad := ""
+			var badPos token.Pos
+			ast.Inspect(rs.Body, func(y ast.Node) bool {
+				var cond ast.Expr
+				switch z := y.(type) {
+				case *ast.IfStmt:
+					cond = z.Cond
+				case *ast.SwitchStmt:
+					cond = z.Tag
+				}
+				if cond == nil {
+					return true
+				}
+				hasVar, hasOrig := false, false
+				ast.Inspect(cond, func(w ast.Node) bool {
+					if id, ok := w.(*ast.Ident); ok {
+						o := info.ObjectOf(id)
+						if o == variant {
+							hasVar = true
+						}
+						for _, oo := range origObjs {
+							if o == oo {
+								hasOrig = true
+							}
+						}
+					}
+					return true
+				})
+				if hasVar && !hasOrig {
+					bad = types.ExprString(cond)
+					badPos = cond.Pos()
+				}
+				return true
+			})
+			key := fmt.Sprintf("%s / variants of %s #%d are judged together with the character they belong to", name, types.ExprString(arg), n)
+			if bad != "" {
+				c.Bad(key, badPos, "`%s` decides about the variant %s without looking at %s: a rule about pairs (no fold across the ASCII boundary, keep only simple pairs) written on the variant alone drops the partners of characters it was not meant for", bad, vid.Name, types.ExprString(arg))
+			} else {
+				c.OK(key, rs.Pos(), "no condition on the variant alone")
+			}
+			return true
+		})
+	}
+	if n == 0 {
+		c.Anchor("loops over tryFindCaseEquivalences results")
+	}
+}
